@@ -812,7 +812,12 @@ char *__realpath_chk(const char *path, char *resolved, size_t len) { (void)len; 
 char *canonicalize_file_name(const char *path) { return realpath(path, NULL); }
 
 /* ---------------------------------------------------------------- clock */
-static long long sim_now(void) { long long t = g_clock_ns + g_clock_calls * g_clock_tick; g_clock_calls++; return t; }
+static long long sim_now(void) {
+    long long t = g_clock_ns + g_clock_calls * g_clock_tick;
+    if (g_clock_calls == 0) logline("clock realtime -> sim (first read; later reads are not logged)");
+    g_clock_calls++;
+    return t;
+}
 
 int clock_gettime(clockid_t id, struct timespec *ts) {
     ENSURE();
